@@ -361,6 +361,7 @@ def check_C08(P, tier):
             if (k.get("callee"), k.get("formal")) in (("compute_wind_fields", "u_rot"), ("compute_wind_fields", "wind_dir"), ("vertical_profiles", "wind"), ("steady_state_transport_solver", "meas_pt")):
                 R.add(o)
                 n_edges += 1
+    R.add(pw.scratch_memo_obligations(P, "R-WIRE"))
     # direction kept by the profiles (all closures)
     o1, runs = profile_obligations(P)
     R.add([o for o in o1 if o.rule == "R-WIND@zm"])
@@ -373,7 +374,13 @@ def check_C08(P, tier):
     S, vf = RS.views(SA, True, False, "generic")
     f = psol._one(RS.pick(vf), "footprint")
     R.add([o for o in psol.crop_obligations(f, "R-ORIENT", True) if "coordinate" in o.what or "varies along" in o.what or "shape" in o.what])
-    R.add(pw.geo_obligations(P, "R-GEO")[:8])
+    R.add(pw.geo_obligations(P, "R-GEO"))
+    # default halo: the periodic images are at least the larger domain extent away in both directions (documented default max(xmax, ymax))
+    S_h, vh = RS.views(SA, True, False, "generic", halo="none")
+    h_ = psol._one(RS.pick(vh), "default halo")
+    H = alg.fmax(S_h.xmx, S_h.ymx)
+    R.add(eq_ob("R-ISOLATE", h_.site("default halo"), "default halo pads x by int(max(xmax, ymax)/dx) cells", h_.px, alg.fn("int", H / h_.dx, integer=True), "documented default: halo = max(xmax, ymax)"))
+    R.add(eq_ob("R-ISOLATE", h_.site("default halo"), "default halo pads y by int(max(xmax, ymax)/dy) cells", h_.py, alg.fn("int", H / h_.dy, integer=True), "documented default: halo = max(xmax, ymax)"))
     R.add(pw.tower_xy_obligations(P, "R-GEO"))
     R.add(SA.fault_obs())
     R.analysed = {"files": ["src/bldfm/utils.py", "src/bldfm/interface.py", "src/bldfm/config_parser.py", "src/bldfm/solver.py", "src/bldfm/pbl_model.py"],
